@@ -12,12 +12,15 @@ Text protocol for the parse models.
   ps dur <hex text>                  → ok <int> | err | ood     (time.ParseDuration, bytes)
   ps durfmt <int>                    → ok <hex text>            (time.Duration.String)
   ps bool <hex text>                 → ok true|false | err      (strconv.ParseBool)
+  ps qitems <item>*                  → ok <hex quoted> <hex bytes>   item ::= a<dec> | b<dec> | p<dec> | e<dec>  (strconv.Quote on items)
+  ps unqtok <hex text>               → ok <tok> <rest length> | err  (one string literal at the start of a byte text)
   ps text slice|set|map|mmap <hex>   → ok … | err | ood         (text to value: scanner model, then the state machines)
 -/
 import DialsModel.Model.ParseInt
 import DialsModel.Model.Split
 import DialsModel.Model.Scan
 import DialsModel.Model.Duration
+import DialsModel.Model.QuoteItems
 import DialsModel.Model.Proto
 
 namespace Dials.Parse
@@ -116,6 +119,25 @@ def handlePs : List String → String
       | "mmap" => (multiMapText s).elim "ood" pairsOut
       | _ => "bad-op"
     | none => "bad-op"
+  | "qitems" :: items =>
+    let parse1 (t : String) : Option QItem :=
+      match t.toList with
+      | 'a' :: r => (String.ofList r).toNat?.map fun n => QItem.ascii (Char.ofNat n)
+      | 'b' :: r => (String.ofList r).toNat?.map QItem.bad
+      | 'p' :: r => (String.ofList r).toNat?.map QItem.print
+      | 'e' :: r => (String.ofList r).toNat?.map QItem.esc
+      | _ => none
+    match items.mapM parse1 with
+    | some is => "ok " ++ hexEnc (quoteItems is) ++ " " ++ hexEnc (itemsBytes is)
+    | none => "bad-op"
+  | ["unqtok", h] =>
+    match hexDecode h with
+    | some (c :: cs) =>
+      if c != '"' then "bad-op" else
+      match scanTok false '"' cs with
+      | .tok t rest => s!"ok {tokOut t} {rest.length}"
+      | .err => "err"
+    | _ => "bad-op"
   | ["dur", h] =>
     match hexDecode h with
     | some s =>
